@@ -42,6 +42,8 @@ pub struct StoreCtx {
     /// — an empty buffer on the indirect path — is accepted with a zero-length element, which the
     /// reference device, like QEMU, does not parse; the case ends with that step)
     pub suspended: bool,
+    /// whether VIRTIO_F_EVENT_IDX was negotiated for this queue (`used_event` may only be written then)
+    pub event_idx: bool,
 }
 
 thread_local! {
@@ -70,6 +72,7 @@ impl StoreCtx {
             last_idx: 0,
             stores_checked: 0,
             suspended: false,
+            event_idx: true,
         }
     }
     pub fn resync(&mut self) {
@@ -132,6 +135,9 @@ impl StoreCtx {
             }
             if r16(&a, 4 + 2 * n) != r16(&self.snap_avail, 4 + 2 * n) {
                 out.push(format!("used_event={}", r16(&a, 4 + 2 * n)));
+                if !self.event_idx {
+                    self.oracle.push(format!("[C08] used_event written ({}) on a queue for which VIRTIO_F_EVENT_IDX was not negotiated", r16(&a, 4 + 2 * n)));
+                }
             }
         }
         self.snap_desc = d;
@@ -263,13 +269,29 @@ impl<const N: usize> Live<N> {
         hal::reset();
         crate::wake::disable();
         STORE.with(|s| *s.borrow_mut() = None);
-        let ts = TState::new(DeviceType::Block, 0, 1, N as u32);
+        // the device's maximum queue size is the driver's SIZE or larger (a device may offer more than the
+        // driver uses); the reference device indexes the rings with the size it was *told*
+        static ALT: std::sync::atomic::AtomicUsize = std::sync::atomic::AtomicUsize::new(0);
+        let k = ALT.fetch_add(1, std::sync::atomic::Ordering::Relaxed);
+        let max = match k % 3 {
+            0 => N as u32,
+            1 => (2 * N as u32).min(32768).max(N as u32),
+            _ => 32768,
+        };
+        let ts = TState::new(DeviceType::Block, 0, 1, max);
         let (mut t, st) = ModelTransport::new(ts);
         let q = guarded(|| VirtQueue::<LedgerHal, N>::new(&mut t, 0, indirect, event_idx, ap))?.map_err(|e| format!("{:?}", e))?;
         let reg = st.borrow().queues[0];
+        if reg.size as usize != N {
+            return Err(format!("[C01] VirtQueue::<_, {}>::new registered the queue with size {} (device maximum {}): the device will look for ring slot idx mod {} while the driver fills idx mod {}", N, reg.size, max, reg.size, N));
+        }
         let dev = RefQueue::new(N as u16, reg.desc, reg.driver, reg.device, indirect);
         hal::take_events();
-        STORE.with(|s| *s.borrow_mut() = Some(StoreCtx::new(N, reg.desc, reg.driver, dev.clone())));
+        STORE.with(|s| {
+            let mut ctx = StoreCtx::new(N, reg.desc, reg.driver, dev.clone());
+            ctx.event_idx = event_idx;
+            *s.borrow_mut() = Some(ctx)
+        });
         Ok(Live { q, t, dev, bufs: vec![], held: BTreeMap::new(), indirect, event_idx, ap, dev_written: HashMap::new(), old_idx: 0, added: 0, popped: 0, hostile: false, stop: false })
     }
 
@@ -534,6 +556,44 @@ impl<const N: usize> Live<N> {
         }
         let _ = hal::with(|h| std::mem::take(&mut h.violations));
         drop(huge);
+    }
+
+    /// A submission of 65 536 or more (one-byte, device-readable) buffers: far longer than any queue, it
+    /// must be refused like any other over-long chain — the count must not be judged modulo 2^16.
+    pub fn add_many(&mut self, c: &mut Case, k: usize) {
+        let one = vec![7u8; 1];
+        hal::name_buffer(one.as_ptr(), 1, "bmany");
+        let before = self.q.verif_state();
+        let op = format!("queue add_many k={}", k);
+        let r = {
+            let q = &mut self.q;
+            let one_ref: &[u8] = one.as_slice();
+            guarded(move || {
+                let refs: Vec<&[u8]> = (0..k).map(|_| one_ref).collect();
+                // SAFETY: the buffer outlives the call; a refused submission shares nothing.
+                unsafe { q.add(&refs, &mut []) }
+            })
+        };
+        let (evs, _halev) = self.take_evs();
+        match r {
+            Ok(Ok(t)) => {
+                c.fail(format!("[C03] add of {} buffers accepted (token {}) on a queue of {} entries: a chain, indirect or not, may not be longer than the queue", k, t, N));
+                c.step(op, "accepted".to_string());
+                self.stop = true;
+            }
+            Ok(Err(e)) => {
+                if self.q.verif_state() != before || evs != "-" {
+                    c.fail(format!("[C03] refused add of {} buffers had side effects: {} {:?} -> {:?}", k, evs, before, self.q.verif_state()));
+                }
+                c.step(op, format!("{} | {} | {}", err_str(e), evs, self.priv_str()));
+            }
+            Err(_) => {
+                c.step(op, "panic".to_string());
+                self.stop = true;
+            }
+        }
+        hal::with(|h| h.bufnames.retain(|b| b.2 != "bmany"));
+        let _ = hal::with(|h| std::mem::take(&mut h.violations));
     }
 
     /// device: fetch everything available (validating), remember in-flight chains
@@ -906,8 +966,13 @@ pub fn structured<const N: usize>(cfg: QCfg, id: String, mut rng: Rng) -> Case {
         }
         l.check_counts(&mut c);
     }
+    // one case in 25 tries a submission of 2^16 or more buffers
+    if !l.stop && !c.steps.last().map(|(_, o)| o.starts_with("panic")).unwrap_or(false) && rng.chance(1, 25) {
+        let k = *rng.pick(&[65536usize, 65537, 65539, 131073]);
+        l.add_many(&mut c, k);
+    }
     // one case in 40 ends with a submission whose buffer is longer than a descriptor can describe
-    let already_dead = l.stop || c.steps.last().map(|(_, o)| o.starts_with("panic")).unwrap_or(false);
+    let already_dead = l.stop || c.steps.last().map(|(_, o)| o.starts_with("panic") || o == "accepted").unwrap_or(false);
     if !already_dead && N >= 2 && rng.chance(1, 40) && l.q.available_desc() >= 2 {
         l.add_huge(&mut c);
     }
@@ -1218,7 +1283,7 @@ fn c04_relevant(f: &str) -> bool {
 pub fn run(ctx: &Ctx, prop: &str) -> (Vec<Case>, String, bool, BTreeMap<String, String>) {
     let mut cases = run_structured(ctx, prop, 1500, 20000);
     let mut rule = RULE.to_string();
-    if matches!(prop, "C01" | "C03" | "C04") {
+    if matches!(prop, "C01" | "C02" | "C03" | "C04") {
         // blocking requests whose wait is ended by an earlier chain's completion (WrongToken): the
         // chain they published stays with the device
         cases.extend(filter_for(prop, crate::c05_notify::foreign_first_cases(ctx, prop)));
@@ -1247,6 +1312,19 @@ pub fn run(ctx: &Ctx, prop: &str) -> (Vec<Case>, String, bool, BTreeMap<String, 
             c.tag("driver-level");
         }
         cases.extend(extra);
+        // non-blocking sound transfers: the driver owns the frame copy and the status word while their chain
+        // is posted; releasing them before the completion is consumed leaves a share that is never
+        // unshared (and memory the device still writes)
+        let mut snd = crate::c20_cmd::sound_cases(ctx, "C04", ctx.tier.pick(200, 3000));
+        for c in snd.iter_mut() {
+            c.oracle_failures.retain(|f| f.contains("still shared with the live device") || c04_relevant(f));
+            for f in c.oracle_failures.iter_mut() {
+                *f = format!("[C04] {}", f.trim_start_matches("[C09] "));
+            }
+            c.id = format!("C04-via-{}", c.id);
+            c.tag("driver-level");
+        }
+        cases.extend(snd);
         // transport level: every driver constructed over the real MMIO transport (legacy and modern
         // register interface); the queue addresses the device model latched must be DMA addresses
         let mut mm = crate::c08_mmio::run_mmio(ctx).0;
@@ -1303,6 +1381,15 @@ pub fn run(ctx: &Ctx, prop: &str) -> (Vec<Case>, String, bool, BTreeMap<String, 
         cases.extend(s10);
     }
     if prop == "C02" {
+        // PCI: the registers queue_set writes are what the device indexes the rings with (C11's stream)
+        let mut pc = crate::c11_pcicap::run(ctx).0;
+        pc.retain(|c| c.id.contains("structured"));
+        for c in pc.iter_mut() {
+            c.oracle_failures.retain(|f| f.starts_with("[C02]"));
+            c.id = format!("C02-via-{}", c.id);
+            c.tag("pci-level");
+        }
+        cases.extend(pc);
         let mut mm = crate::c08_mmio::run_mmio(ctx).0;
         for c in mm.iter_mut() {
             c.oracle_failures.retain(|f| f.starts_with("[C02]"));
